@@ -640,25 +640,38 @@ def _run_family(tier, cases, name, files):
     return {'family': name, 'evaluations': evals, 'distinct_nontrivial': nontriv, 'rule': 'see group rule; %d documented refusals' % refused, 'samples': samples, 'failures': fails[:12], 'files': fh}
 
 
-@group('basis.exhaustive', kind='bounded', files=[FSB, MILLER, BOXF], functions=['free_surface_basis'],
-       clause='for every integer plane within the index bound in a cell of each of the seven crystal families, each choice of out-of-plane cell vector, Miller-Bravais input and centred '
-              'settings with primitive cells: three integer vectors, right-handed, the two in-plane ones satisfy the zone law exactly and are ordered right-handedly about the normal, the '
-              'third is off the plane on its positive side, and the reported normal is the reciprocal-lattice direction of the plane',
-       rule='all (h,k,l) with |index| <= 2 (quick) / 3 (thorough) x cells {cubic, tetragonal, orthorhombic, hexagonal (3- and 4-index), rhombohedral, monoclinic, triclinic} x cutboxvector '
-            '(cycled in quick, all in thorough) + settings {f,i cubic; i tetragonal; c,a,f orthorhombic; c monoclinic} on the primitive cell; oracle: exact integer zone law / determinant, '
-            'reciprocal vectors from the inverse cell matrix; distinct by case key; non-trivial = not refused')
-def basis_exhaustive(tier, seed):
-    from . import c14_family as fam
-    return _run_family(tier, fam.basis_cases(tier), 'basis.exhaustive', (FSB, MILLER))
+_BASIS_CLAUSE = ('for every integer plane within the index bound in a cell of each of the seven crystal families, each choice of out-of-plane cell vector, Miller-Bravais input and centred '
+                 'settings with primitive cells: three integer vectors, right-handed, the two in-plane ones satisfy the zone law exactly and are ordered right-handedly about the normal, the '
+                 'third is off the plane on its positive side, and the reported normal is the reciprocal-lattice direction of the plane')
+_BASIS_RULE = ('all (h,k,l) with |index| <= 2 (quick) / 3 (thorough) x cells {cubic, tetragonal, orthorhombic, hexagonal (3- and 4-index), rhombohedral, monoclinic, triclinic} x cutboxvector '
+               '(cycled in quick, all in thorough) + settings {f,i cubic; i tetragonal; c,a,f orthorhombic; c monoclinic} on the primitive cell; oracle: exact integer zone law / determinant, '
+               'reciprocal vectors from the inverse cell matrix; distinct by case key; non-trivial = not refused')
+_SURF_CLAUSE = ('real crystals: the rotated cell is the same crystal with the cut axis along the plane normal; one shift per distinct atomic layer, each putting the cut strictly midway '
+                'between layers; surface systems have the documented size (multipliers, negative multipliers, minimum width, even, vacuum), periodicity off across the cut only, surface '
+                'area of the in-plane vectors; fault plane position refers to the built system; fault shifts leave the lower half in place and move the upper half by the requested vector '
+                'modulo in-plane cell vectors; whole in-plane lattice vectors restore the perfect crystal; the stored system is unchanged; fault maps visit the documented grid')
+_SURF_RULE = ('crystals {fcc, bcc, hcp (3-/4-index), B2, diamond, 2-atom monoclinic, fcc/bcc primitive with f/i settings} x 32 planes x cut vectors (cycled / all) x all offered shifts x '
+              '{plain, vacuum, minwidth, even, negative multipliers} x 3 fault set-ups x 7 fault vectors; documented refusal (orientation incompatible with the cut vector) accepted')
 
 
-@group('surface_and_fault.family', kind='bounded', files=[FSF, SFF, FSB, SYSF], functions=['FreeSurface.__init__', 'FreeSurface.surface', 'StackingFault.fault', 'StackingFault.iterfaultmap'],
-       clause='real crystals: the rotated cell is the same crystal with the cut axis along the plane normal; one shift per distinct atomic layer, each putting the cut strictly midway '
-              'between layers; surface systems have the documented size (multipliers, negative multipliers, minimum width, even, vacuum), periodicity off across the cut only, surface '
-              'area of the in-plane vectors; fault plane position refers to the built system; fault shifts leave the lower half in place and move the upper half by the requested vector '
-              'modulo in-plane cell vectors; whole in-plane lattice vectors restore the perfect crystal; the stored system is unchanged; fault maps visit the documented grid',
-       rule='crystals {fcc, bcc, hcp (3-/4-index), B2, diamond, 2-atom monoclinic, fcc/bcc primitive with f/i settings} x 32 planes x cut vectors (cycled / all) x all offered shifts x '
-            '{plain, vacuum, minwidth, even, negative multipliers} x 3 fault set-ups x 7 fault vectors; documented refusal (orientation incompatible with the cut vector) accepted')
-def surface_family(tier, seed):
+def _register_families():
     from . import c14_family as fam
-    return _run_family(tier, fam.surface_cases(tier), 'surface_and_fault.family', (FSF, SFF, FSB))
+    nshard = 8
+    for name, cases_of, files, functions, clause, rule in (
+            ('basis.exhaustive', fam.basis_cases, [FSB, MILLER, BOXF], ['free_surface_basis'], _BASIS_CLAUSE, _BASIS_RULE),
+            ('surface_and_fault.family', fam.surface_cases, [FSF, SFF, FSB, SYSF], ['FreeSurface.__init__', 'FreeSurface.surface', 'StackingFault.fault', 'StackingFault.iterfaultmap'],
+             _SURF_CLAUSE, _SURF_RULE)):
+        def mk(name=name, cases_of=cases_of, files=files, shard=None):
+            def fn(tier, seed):
+                cases = cases_of(tier)
+                if shard is not None:
+                    cases = cases[shard[0]::shard[1]]
+                return _run_family(tier, cases, name, [f for f in files if f.endswith('.py')])
+            return fn
+        group(name, kind='bounded', files=files, functions=functions, clause=clause, rule=rule, tiers=('quick',))(mk())
+        for k in range(nshard):
+            group('T:%s[%d/%d]' % (name, k, nshard), kind='bounded', files=files, functions=functions, clause=clause, rule=rule + '; thorough tier, shard %d of %d' % (k, nshard),
+                  tiers=('thorough',))(mk(shard=(k, nshard)))
+
+
+_register_families()
